@@ -8,6 +8,7 @@ construction proved to capture "is a prefix of some derivable string".  The engi
 itself is not modelled here; the tie is impl-vs-proved-spec (see DESIGN.md).
 -/
 import LlgVerif.Proofs.CfgPrefixMain
+import LlgVerif.Proofs.Earley
 namespace LlgVerif
 namespace Cfg
 
@@ -56,4 +57,21 @@ example : DL exG [Sym.nt 0] [97, 98] := by
   exact DL_single exG (by simp [exG]) h1
 
 end Cfg
+
+/-! ### the Earley rows (mechanism model M4, tied to the parser's rows item by item)
+
+`Ey.runRows` mirrors `scan` / `process_agenda` over the compiled grammar dump; on every run the
+items of every row of the real parser are compared with it.  Soundness of the model: every item has
+a derivation of the scanned lexemes, so an accepting last row means the start symbol derives the
+input (relative to the grammar's rules and nullable flags; the flags are checked to be closed under
+the rules when the dump is loaded). -/
+
+theorem c05_earley_rows_sound (g : Ey.CG) (hw : g.wf = true) (lexs : List (List Nat)) :
+    Ey.RowsOK g lexs (Ey.runRows g lexs) :=
+  (Ey.runRows_ok g (Ey.wf_of_check g hw) lexs).1
+
+theorem c05_earley_accept_sound (g : Ey.CG) (hw : g.wf = true) (lexs : List (List Nat))
+    (h : Ey.accepting g (Ey.runRows g lexs) = true) : Ey.Der g lexs g.start 0 lexs.length :=
+  Ey.accepting_sound g (Ey.wf_of_check g hw) lexs h
+
 end LlgVerif
